@@ -7,21 +7,21 @@ META = {
  "C01": ("refusal guards dominate evaluation; reduction keeps every factor and folded constant; stacked/keyword views use one name/size table",
          "CFG dominance + provenance rules (ast)"),
  "C02": ("accept branch of all 8 Metropolis kernels: finite guard, paired state/cache update from the same proposal, sign of the log-ratio terms, symmetric-proposal precondition, pCN form",
-         "CFG guard analysis + def-use provenance + sign/dependence lattice (ast)"),
+         "CFG guard analysis + def-use provenance + sign/dependence lattice + point/cache coherence of every cached-evaluation write (ast)"),
  "C03": ("gradient depends on every parameter the log-density combines with x; 'not available' is a raise on every path; chain-rule guards dominate; support predicates agree; FD switch differentiates logd",
-         "backward dependence slices + CFG fall-through analysis (ast)"),
+         "backward dependence slices + CFG fall-through analysis + Gram-orientation classification + cache-coherence rule (ast)"),
  "C04": ("property getter/setter wiring; CDF aggregation by product; Gaussian shape-dispatch helpers assign every returned name and agree on the sign of logdet; un-normalised = normalised - constant",
-         "property-table lint + definite assignment + sign lattice (ast)"),
+         "property-table lint + definite assignment + sign lattice + Gram-orientation def-use rule + exact-shortcut-guard lint + mirror-refresh predicate table (ast)"),
  "C05": ("generator discipline in every _sample (global NumPy stream only when rng is None); sampler reads the density's parameters; triangular-solve orientation matches its guard; wrapper refuses conditionals and wraps with the geometry",
-         "path-sensitive CFG rule + dependence comparison (ast)"),
+         "path-sensitive CFG rule + dependence comparison + cache-coherence + exact-shortcut-guard lint (ast)"),
  "C06": ("stacked RTO/UGLA operator: adjoint branch is the blockwise transpose of the forward branch with the same scalars and slices; right-hand side whitened like the operator; step shape",
-         "expression-tree factor-chain comparison between sibling branches (ast)"),
+         "expression-tree factor-chain comparison between sibling branches + late-binding closure capture lint with positive control (ast)"),
  "C07": ("representation typestate of Model/LinearModel: raw operators only see function values, results converted to parameters once, dual quantities converted only under the identity-geometry guard or via geometry.gradient",
-         "typestate / guard-dominance over _model.py (ast)"),
+         "typestate / guard-dominance over _model.py + padding-mode/adjoint table for the shipped 2-D convolution pair + late-binding capture lint (ast)"),
  "C08": ("leapfrog data flow, slice/divergence indicators, subtree selection ratio and update order, top-level accept guard and paired cache update, dual-averaging dependence sets, in both NUTS implementations",
-         "reaching-definition provenance + CFG guard analysis (ast)"),
+         "reaching-definition provenance + CFG guard analysis on metavariable patterns + point/cache coherence (ast)"),
  "C09": ("sweep iterates all parameter names, conditions on the live value mapping, writes back before the next block, stores after the sweep; target-derived caches are recomputed after re-targeting",
-         "def-use + loop-shape + effect analysis (ast)"),
+         "def-use + loop-shape + effect analysis + guarded-default rule for configured counts (ast)"),
  "C10": ("conjugate validation (family, Gamma, dim 1, single occurrence, functional form) precedes every draw; dispatch tables agree; Direct.step is target.sample()",
          "call-graph must-pass-through + sibling agreement (ast)"),
  "C11": ("no in-place or attribute write of the read API reaches a non-fresh object; conditioning returns fresh objects; copy-before-write; name survives copies",
@@ -33,11 +33,11 @@ META = {
  "C14": ("checkpoint payload ⊇ loop-carried state; history unaliased; one transition/record/callback per iteration; config/state separation; key-set symmetry; initialisation-time randomness in the payload; legacy chain layout",
          "interprocedural attribute effect analysis (upward-exposed reads vs must-writes), may-alias analysis, CFG loop-shape rules (ast)"),
  "C15": ("closed-form MAP normalises every stored covariance form; function and gradient negated together; MAP and covariance built from the same matrices",
-         "shape-dispatch completeness + paired-negation rules (ast)"),
+         "shape-dispatch completeness + paired-negation rules + Gram-orientation of compute_cov + alias analysis (ast)"),
  "C16": ("matrix form and function form of every solver step are the same expression under A@v<->A(v,1), A.T@v<->A(v,2); x0/b/A never modified in place; paired negation; SciPy result passed through; projection/prox one-liners",
-         "expression equivalence modulo operator form + alias analysis (ast)"),
+         "expression equivalence modulo operator form + alias analysis + trial-twin unification for the LM accept branch (ast)"),
  "C17": ("exactData = model.forward(exactSolution) with the likelihood's model; data derived from it; noise level used with consistent degree; column assembly; exhaustive option chains",
-         "def-use provenance in the test-problem constructors (ast)"),
+         "def-use provenance in the test-problem constructors + abstract interpretation of PSF grid index arithmetic in an affine-with-parity domain (ast)"),
  "C18": ("assemble -> solve -> observe data flow; per-step assembly and dt from the loop index; restriction only when grids/times coincide; solver tuple unpacking; gradient dispatch",
          "ordering/dominance + loop dependence rules (ast)"),
  "C19": ("sample axis is the last axis everywhere; burnthin slices a copy and refuses Nb>=Ns; statistics are the named NumPy reductions; interval bounds ordered; chains zipped in index order",
